@@ -6,7 +6,7 @@ wt=$(mktemp -d /tmp/wp-XXXXXX); rmdir $wt
 git -C /repo worktree add --detach -q $wt HEAD || exit 3
 trap 'git -C /repo worktree remove --force '$wt' >/dev/null 2>&1; git -C /repo worktree prune' EXIT
 git -C $wt apply "$diff" || { echo "patch does not apply"; exit 3; }
-cd /verif
+cd "$(dirname "$0")/.."
 for id in "$@"; do
   out=$(VERIF_REPO=$wt ./check $id ${TIER:-quick} 2>&1); rc=$?
   echo "patch=$(basename $(dirname $diff))/$(basename $diff) check=$id rc=$rc :: $(echo "$out" | grep -E '^(VIOLATION|OK|INCONCLUSIVE|  detail)' | head -2 | cut -c1-${WIDTH:-300} | tr '\n' ' ')"
